@@ -200,6 +200,7 @@ func VerifH_MultiLineStopPlacement() {
 	var ran [3]int
 	gate := make(chan struct{})
 	fromInside := symx.Bool("stopFromInsideACall")
+	earlyDone := false
 	call := func(ctx context.Context, sIndex int, req interface{}) (interface{}, error) {
 		id := req.(int)
 		ran[id]++
@@ -226,7 +227,13 @@ func VerifH_MultiLineStopPlacement() {
 		tS := symx.Go("stopper", func() { m.Stop() })
 		symx.WaitQuiescent()
 		symx.MustFinish(tS, "Stop returns without the lanes having run")
+		tEarly := symx.Go("earlyWaiter", func() { _ = m.WaitStop(verifNewCtx()) })
+		symx.WaitQuiescent()
+		symx.Assert(symx.Blocked(tEarly), "the exit signal is not given while calls accepted before Stop are still pending")
 		m.Run()
+		symx.WaitQuiescent()
+		symx.MustFinish(tEarly, "after Stop all lane goroutines terminate and the exit signal is sent")
+		earlyDone = true
 	}
 	symx.WaitQuiescent()
 	symx.MustFinish(tA, "a call accepted before Stop completes")
@@ -237,8 +244,10 @@ func VerifH_MultiLineStopPlacement() {
 	symx.WaitQuiescent()
 	symx.MustFinish(tC, "a call after Stop returns at once")
 	symx.Assert(e[2] == pipe.ErrQueueClosed && ran[2] == 0, "after Stop no new call is accepted")
-	tW := symx.Go("waiter", func() { _ = m.WaitStop(verifNewCtx()) })
-	symx.WaitQuiescent()
-	symx.MustFinish(tW, "after Stop all lane goroutines terminate and the exit signal is sent")
+	if !earlyDone { // (the exit signal is a single token: the early waiter has taken it on the other branch)
+		tW := symx.Go("waiter", func() { _ = m.WaitStop(verifNewCtx()) })
+		symx.WaitQuiescent()
+		symx.MustFinish(tW, "after Stop all lane goroutines terminate and the exit signal is sent")
+	}
 	symx.Reach("end")
 }
